@@ -69,6 +69,7 @@ Definition run (fn : Z) (i : tree) : tree :=
   match fn with
   | 1 => run_layout i
   | 4 => run_helper i
+  | 9 => TL [t_nth 1 i; TI 0]
   | _ => tbad
   end.
 
@@ -82,5 +83,6 @@ Definition spec (fn : Z) (i o : tree) : bool :=
       | _, _ => false
       end
   | 4 => spec_helper i o
+  | 9 => t_int (t_nth 1 o) =? 0
   | _ => false
   end.
